@@ -52,7 +52,7 @@ fn c14_new_node_is_fresh() {
 /// K-total: the per-IP rule. already_exists(nodes) <=> some existing node has the same IP and is
 /// either not secure or shares the candidate's first 21 id bits.
 #[kani::proof]
-#[kani::unwind(4)]
+#[kani::unwind(22)]
 #[kani::stub(Id::is_valid_for_ip, stub_is_valid_for_ip)]
 fn c12_already_exists_is_the_per_ip_rule() {
     let ia: [u8; 20] = kani::any();
